@@ -13,7 +13,7 @@
    in the model yet: PrintModel.convert_to_range is the identity, see notes). *)
 From Coq Require Import List ZArith.
 From RtoscV Require Import Pretty.Tok Pretty.FloatFmt Pretty.PrintModel Pretty.ScanModel
-  Pretty.PrettyProofs Pretty.PrettyRegress.
+  Pretty.PrettyProofs Pretty.RangeProofs Pretty.PrettyRegress.
 Import ListNotations.
 Local Open Scope Z_scope.
 
@@ -41,6 +41,18 @@ Theorem C10_linebreak_transparent : forall (dec2f dec2d : list Z -> Z) vs T,
   count_printed_arg_vals dec2f dec2d T = Ok (true, Z.of_nat (length vs)) /\
   scan_arg_vals dec2f dec2d T (Z.of_nat (length vs)) = Ok (vs, []).
 Proof. exact (fun a b vs T H => conj (count_lang a b vs T H) (scan_lang a b vs T H)). Qed.
+
+(* rtosc_convert_to_range: whenever it converts the head of a list of scalar
+   values into a range block, the block expands (PrintModel.expand) to exactly
+   the kk slots it replaces, and kk >= 5 (the threshold).  For runs with a step
+   (types i, h, c; wrap-around arithmetic) and constant runs of every scalar
+   type except floats/doubles (their == is not identity: signed-zero-run). *)
+Theorem C10_range_expand : forall o args size c kk,
+  Forall scalar args -> Forall inrv args -> exact (hd VN args) ->
+  Z.of_nat (length args) < 2 ^ 31 ->
+  convert_to_range o args size = CYes c kk ->
+  exists n, kk = Z.of_nat n /\ (5 <= n)%nat /\ expand c = Some (firstn n args).
+Proof. exact range_expand. Qed.
 
 (* decimal integers: no open hypothesis about printf/sscanf *)
 Theorem C10_decimal_roundtrip : forall v rest,
